@@ -299,6 +299,10 @@ pub fn gen_key(rng: &mut Rng, reserved_pct: u64) -> Vec<u8> {
 }
 
 pub fn gen_small_bytes(rng: &mut Rng) -> Vec<u8> {
+    if rng.chance(1, 40) {
+        // now and then a value that alone is larger than a whole record may be
+        return vec![0x5a; rng.range(240, 420) as usize];
+    }
     let n = match rng.below(10) {
         0 => 0,
         1 => 1,
@@ -751,8 +755,12 @@ pub fn gen_content(rng: &mut Rng, honest: bool, kinds: &[PkKind]) -> Content {
 
 pub fn gen_rule(rng: &mut Rng) -> Rule {
     let i = rng.byte();
-    match rng.below(50) {
-        48 | 49 => Rule::EdSmallOrder,
+    match rng.below(57) {
+        53 | 54 => Rule::JunkOtherKey(rng.byte()),
+        55 | 56 => Rule::SigOverDigest,
+        48 | 49 => Rule::EdSmallOrder(rng.byte()),
+        50 => Rule::PkRawXY,
+        51 | 52 => Rule::SigLeadingZeroStripped,
         46 => Rule::PkUncompressed,
         47 => Rule::InnerNonCanonList,
         0 | 1 => Rule::SwapPairs(i),
@@ -975,7 +983,7 @@ pub fn gen_event(rng: &mut Rng, w: &World, p: &Profile, st: &mut GenState) -> Ev
             Event::Op { node, slot: pick_slot(rng, p), op: gen_op(rng, w, n, p) }
         }
         1 => Event::Build { node: pick_node(rng, w), slot: pick_slot(rng, p), calls: gen_build(rng, p), reuse: if rng.chance(1, 5) { Some(rng.below(2) as u8) } else { None } },
-        2 => Event::ArmSigner { node: pick_node(rng, w), slot: 0, nth: rng.range(1, 3) },
+        2 => Event::ArmSigner { node: pick_node(rng, w), slot: if rng.chance(3, 4) { 0 } else { rng.range(1, 2) as u8 }, nth: rng.range(1, 3) },
         3 => {
             let vars: Vec<usize> = w.nodes.iter().enumerate().filter(|(_, n)| n.backend() == Backend::Var).map(|(i, _)| i).collect();
             Event::VarLen { node: *rng.pick(&vars) as u8, slot: 0, len: *rng.pick(&[1u16, 2, 16, 40, 41, 48, 55, 56, 57, 64, 80, 96, 120, 200, 255]) }
